@@ -62,17 +62,17 @@ impl ConstSingleDivisor {
 //@@ FN integer/divconst2/single_divisor.rs
 //@@ FN integer/divconst2/single_normalized_divisor.rs
 //@@ FN integer/divconst2/single_shift.rs
-//@@ FN integer/div_const/single_rem_word.rs
-//@@ FN integer/div_const/single_rem_dword.rs
-//@@ FN integer/div_const/single_rem_large.rs
+//@@ FN integer/divconst2/single_rem_word.rs
+//@@ FN integer/divconst2/single_rem_dword.rs
+//@@ FN integer/divconst2/single_rem_large.rs
 }
 impl ConstDoubleDivisor {
 //@@ FN integer/divconst2/double_new.rs
 //@@ FN integer/divconst2/double_divisor.rs
 //@@ FN integer/divconst2/double_normalized_divisor.rs
 //@@ FN integer/divconst2/double_shift.rs
-//@@ FN integer/div_const/double_rem_dword.rs
-//@@ FN integer/div_const/double_rem_large.rs
+//@@ FN integer/divconst2/double_rem_dword.rs
+//@@ FN integer/divconst2/double_rem_large.rs
 }
 impl ConstLargeDivisor {
 //@@ FN integer/divconst2/large_new.rs
